@@ -559,6 +559,12 @@ func TestVerif_C17_RacingUpdates(t *testing.T) {
 		nCreators := rapid.IntRange(2, 6).Draw(t, "creators")
 		perCreator := rapid.IntRange(1, 4).Draw(t, "usersEach")
 		conditional := rapid.Bool().Draw(t, "descriptionWriterUsesIfMatch")
+		// the group's own URL is valid with and without a trailing slash
+		dp := p
+		if rapid.Bool().Draw(t, "groupUrlWithTrailingSlash") {
+			dp = p + "/"
+		}
+		c17rRec.ClassIf(dp != p, "group_url_with_trailing_slash")
 		var stop atomic.Bool
 		var wg sync.WaitGroup
 		var descAcks atomic.Int64
@@ -569,14 +575,14 @@ func TestVerif_C17_RacingUpdates(t *testing.T) {
 			for i := 0; !stop.Load() && i < 4000; i++ {
 				hdr := map[string]string{"Authorization": auth, "Content-Type": "application/json"}
 				if conditional {
-					r, err := rig.raw("GET", p, map[string]string{"Authorization": auth}, nil)
+					r, err := rig.raw("GET", dp, map[string]string{"Authorization": auth}, nil)
 					if err != nil || r.Status != 200 {
 						continue
 					}
 					hdr["If-Match"] = r.Header.Get("ETag")
 				}
 				body := []byte(fmt.Sprintf(`{"displayName":"rev %d %s","max-clients":%d}`, i, strings.Repeat("d", i%17), 5+i%40))
-				r, err := rig.raw("PUT", p, hdr, body)
+				r, err := rig.raw("PUT", dp, hdr, body)
 				if err != nil {
 					bad.Store("PUT description: no HTTP response: " + err.Error())
 					return
